@@ -454,6 +454,38 @@ impl<'a, 'tcx> Cx<'a, 'tcx> {
                 }
             }
         }
+        // by-value tuples (`const UNIDENTIFIED: (u32, u32) = (0, 0)`) and references to tuples / structs
+        {
+            let (inner, is_ref) = match ty.kind() {
+                ty::Ref(_, t, _) => (*t, true),
+                _ => (ty, false),
+            };
+            let is_tuple = matches!(inner.kind(), ty::Tuple(ts) if !ts.is_empty());
+            let is_struct = matches!(inner.kind(), ty::Adt(a, _) if a.is_struct());
+            if (is_tuple || (is_ref && is_struct)) && !c.has_non_region_param() {
+                if let Ok(cv) = c.eval(tcx, self.env, rustc_span::DUMMY_SP) {
+                    let v = match cv {
+                        mir::ConstValue::Indirect { alloc_id, offset } if !is_ref => {
+                            self.alloc_of(alloc_id).and_then(|a| self.read_value(a, offset.bytes() as usize, inner, 0))
+                        }
+                        mir::ConstValue::Scalar(mir::interpret::Scalar::Ptr(ptr, _)) if is_ref => {
+                            let (prov, off) = ptr.into_raw_parts();
+                            self.alloc_of(prov.alloc_id()).and_then(|a| self.read_value(a, off.bytes() as usize, inner, 0))
+                        }
+                        mir::ConstValue::Indirect { alloc_id, offset } if is_ref => {
+                            self.deref_stored_ref(alloc_id, offset.bytes() as usize, Some(1))
+                                .and_then(|(aid, off, _)| self.alloc_of(aid).and_then(|a| self.read_value(a, off, inner, 0)))
+                        }
+                        _ => None,
+                    };
+                    if let Some(v) = v {
+                        o.put("is_ref", J::Bool(is_ref));
+                        o.put("value", v);
+                        return o;
+                    }
+                }
+            }
+        }
         if let ty::Adt(adt, _) = ty.kind() {
             if adt.is_struct() && !c.has_non_region_param() {
                 match c.eval(tcx, self.env, rustc_span::DUMMY_SP) {
